@@ -29,6 +29,11 @@
 //!             (no symbol files), processed under stable_basic and rendered
 //!                                         -> T req=<requesting_thread|-> <tid>:<info 0 Ok|1 MissingContext|2 DumpThreadSkipped|3 other>:
 //!                                            <instruction>/<trust>,...:<unloaded offsets of frame 0 joined by +>,... ; ...
+//!  B <good> <crash> 16 (v)*16   (round 5) amd64/Linux crash at address <crash> = <good> with one bit (12..47) flipped; the page of
+//!             <good> is the only mapped memory (memory-info list); the 16 general-purpose registers (rax rbx rcx rdx rsi rdi rbp rsp
+//!             r8..r15) hold the values, rip = 0x400000
+//!                                         -> B <nearby_registers of the candidate <good>> <index into NEARBY_REGISTER the confidence
+//!                                            was computed with | ->     (B ? .. when the candidate is missing)
 //! A panic anywhere inside a case is answered `P;;<message>` by vharness::for_each_case.
 #[path = "../dumpspec.rs"]
 mod dumpspec;
@@ -602,6 +607,42 @@ fn run_args(t: &mut Toks) -> String {
     }
 }
 
+/// B case: see the header.
+fn run_nearby(t: &mut Toks) -> String {
+    let good = t.u64();
+    let crash = t.u64();
+    let n = t.usize();
+    const NAMES: [&str; 16] = ["rax", "rbx", "rcx", "rdx", "rsi", "rdi", "rbp", "rsp", "r8", "r9", "r10", "r11", "r12", "r13", "r14", "r15"];
+    let mut r: Vec<(String, u64)> = (0..n).map(|i| (NAMES[i].to_string(), t.u64())).collect();
+    r.push(("rip".into(), 0x400000));
+    let mut spec = Spec { cpu: "amd64".into(), os: "linux".into(), ..Default::default() };
+    spec.threads.push(ThreadSpec { id: 1, stack_base: 0x10000, stack: vec![0; 64], regs: Some(r.clone()) });
+    spec.exc = Some(ExcSpec { tid: 1, code: 11, flags: 0, addr: crash, nparams: 0, info0: 0, info1: 0, regs: Some(r) });
+    spec.meminfo.push((good & !0xfff, 0x1000, 4));
+    let state = state_of(&spec);
+    render(&state);
+    let ei = state.exception_info.as_ref().expect("exception info");
+    let Some(bf) = ei.possible_bit_flips.iter().find(|b| b.address.0 == good && b.source_register.is_none()) else {
+        return format!("B ? {} candidates", ei.possible_bit_flips.len());
+    };
+    let count = bf.details.nearby_registers;
+    // which table entry went into the confidence: recompute it for the counts 1..=4, which use the entries 0..=3
+    let mut idx: Option<usize> = None;
+    if count > 0 {
+        for k in 1..=4u32 {
+            let mut d = bf.details.clone();
+            d.nearby_registers = k;
+            if Some(d.confidence()) == bf.confidence {
+                idx = Some(k as usize - 1);
+            }
+        }
+        if idx.is_none() {
+            return format!("B {} ?", count);
+        }
+    }
+    format!("B {} {}", count, idx.map(|i| i.to_string()).unwrap_or_else(|| "-".into()))
+}
+
 /// T case: see the header.
 fn run_threads(spec: &Spec) -> String {
     let state = state_of(spec);
@@ -659,6 +700,7 @@ fn run(line: &str) -> String {
             let spec = parse_spec(line.split_ascii_whitespace().skip(1));
             run_threads(&spec)
         }
+        "B" => run_nearby(&mut t),
         "L" => run_limits(&mut t),
         "G" => run_guard(&mut t),
         "S" => run_stack_access(&mut t),
